@@ -39,6 +39,12 @@ CONV = [(16000, 1, 2048, 24000, 1, 5, 0, 0, 0, 1000, 0, 11, 16000, 1), (48000, 1
         (24000, 1, 2048, 20000, 1, 2, 0, 0, 0, 1000, 1103, 11, 24000, 1), (48000, 1, 2048, 64000, 1, 8, 0, 0, 0, 1001, 1105, 11, 16000, 1)]
 DTXS = [(16000, 1, 2048, 24000, 1, 5, 0, 0, 1, 1000, 0, 10, 16000, 1), (48000, 1, 2049, 32000, 1, 10, 0, 0, 1, 0, 0, 10, 48000, 1),
         (8000, 1, 2048, 12000, 1, 3, 1, 10, 1, 1000, 0, 10, 8000, 2)]
+# quiet start (300 ms of faint noise, then a stationary loud signal: families 15 / 16) on MDCT-only streams (forced mode or the
+# low-delay application): the depth of the MDCT layer's concealment floor (clause M7) is observable there
+QS = [(48000, 1, 2051, 64000, 1, 5, 0, 0, 0, 0, 0, 15, 48000, 1), (48000, 2, 2049, 96000, 1, 5, 0, 0, 0, 1002, 0, 15, 48000, 2),
+      (48000, 1, 2049, 32000, 0, 3, 0, 0, 0, 1002, 0, 16, 48000, 1), (24000, 1, 2049, 40000, 1, 8, 0, 0, 0, 1002, 0, 15, 24000, 2),
+      (48000, 2, 2051, 128000, 2, 10, 0, 0, 0, 0, 0, 16, 16000, 1), (16000, 1, 2049, 24000, 1, 5, 0, 0, 0, 1002, 0, 16, 16000, 1),
+      (48000, 1, 2049, 48000, 1, 6, 0, 0, 0, 1002, 1104, 15, 48000, 1), (48000, 2, 2049, 64000, 0, 7, 0, 0, 0, 1002, 0, 15, 48000, 1)]
 
 
 def pool(pol, U):
@@ -75,8 +81,13 @@ def gen_schedules(ctx, tier):
     if r.error or r.violation:
         raise vf.Infra("Link_mc gen (C09): " + str(r.error or r.violation))
     ctx.add_tlc(r, "gen Link_mc/Link_gen_c09_%s.cfg" % tier)
-    sched, bursts = [], []
+    sched, bursts, bursts2 = [], [], []
     for p in r.prints:
+        m = re.match(r'"BURST2 (\w+) (\d+) (\d+) (\d+) (\d+) \| (.*)\| (.*)\| D(\d+) \| (.*)"$', p)
+        if m:
+            bursts2.append((m.group(1), int(m.group(2)), int(m.group(3)), int(m.group(4)), int(m.group(5)), m.group(6).split(), m.group(7).split(),
+                            int(m.group(8)), m.group(9).split()))
+            continue
         m = re.match(r'"SCHED (\w+) (\d+) ([01]+) \| (.*)"$', p)
         if m:
             sched.append((m.group(1), int(m.group(2)), m.group(3), m.group(4).split()))
@@ -84,15 +95,16 @@ def gen_schedules(ctx, tier):
         m = re.match(r'"BURST (\w+) (\d+) (\d+) \| (.*)\| (.*)\| (\d+) \| (.*)"$', p)
         if m:
             bursts.append((m.group(1), int(m.group(2)), int(m.group(3)), m.group(4).split(), m.group(5).split(), int(m.group(6)), m.group(7).split()))
-    if not sched or not bursts:
+    if not sched or not bursts or not bursts2:
         raise vf.Infra("Link_mc gen emitted no schedules")
     # TLC's workers print in an order that changes from run to run: sort, so that everything derived is repeatable (R4)
     sched.sort(key=lambda x: (x[1], x[0], x[2]))
     bursts.sort(key=lambda x: (x[1], x[0], x[2]))
-    return sched, bursts
+    bursts2.sort(key=lambda x: (x[1], x[0], x[2], x[3], x[4]))
+    return sched, bursts, bursts2
 
 
-def build_scripts(ctx, sched, bursts, tier):
+def build_scripts(ctx, sched, bursts, tier, bursts2=()):
     """group receiver runs by stream; returns list of streams [(L line, [W lines], [meta])]"""
     rng = random.Random(ctx.seed)
     ref = {(U, bits): toks for (pol, U, bits, toks) in sched if pol == "PW"}
@@ -175,6 +187,47 @@ def build_scripts(ctx, sched, bursts, tier):
             rt = shift(pre + grp * reps + suf, start) + tl
             rf = shift(pre + ["P%d" % U] * Lb + ["D%d" % (5 + Lb)], start) if pol in ("F1", "F2") else []
             streams.append((L, ["W %d | %s | %s" % (start, " ".join(rt), " ".join(rf))], [(pol, U, "burst%d" % Lb)]))
+    # two sustained bursts separated by a stretch of received packets (the earlier one 3 s / 10 s / 26 s: the MDCT layer's loss
+    # counter saturates after 25 s), on the quiet-start streams; single sustained bursts on the same streams as well.
+    # quick: a slice (second burst 1.5 s; 26 s outage + 1 s gap for every policy x duration, a third of its other gaps,
+    # half of the 10 s outages + 1 s gap, a sixth of the 3 s ones; one stream configuration each)
+    nsel = 0
+    for j, (pol, U, L1, G, L2, pre, grp, mid0, suf) in enumerate(bursts2):
+        ms1, msg, ms2 = L1 * U * 5 // 2, G * U * 5 // 2, L2 * U * 5 // 2
+        if tier == "quick":
+            if ms2 > 2000 or (ms1 < 20000 and msg > 2000):
+                continue
+            nsel += 1
+            if not (ms1 >= 20000 and 800 <= msg <= 1500) and nsel % (3 if ms1 >= 20000 else 2 if ms1 >= 9000 and 800 <= msg <= 1500 else 6):
+                continue
+        for rep in range(1 if tier == "quick" else 2):
+            c = QS[(j + 3 * rep + rng.randrange(len(QS))) % len(QS)]
+            tl, ntail = tail_tokens(U)
+            # a third of them from the very first (quiet) packets, the others from somewhere in the first second (the background
+            # estimate may rise by about 2.4 dB per second of received audio: the clause is calibrated for runs that receive at most
+            # about 4 s of the loud signal before the judged burst)
+            start = 0 if (j + rep) % 3 == 0 else rng.randrange(0, 400 // U + 1)
+            npk = start + 5 + L1 + G + L2 + 1 + ntail + 1
+            if npk > 3900:
+                continue
+            L = "L %d %d %d %d %d %d %d %d %d %d %d %d %d %d %d %d %d" % (c[:9] + (U,) + c[9:12] + (rng.randrange(1, 1 << 30),) + c[12:14] + (npk,))
+            rt = shift(pre + grp * L1 + ["D%d" % (mid0 + g) for g in range(G)] + grp * L2 + suf, start) + tl
+            streams.append((L, ["W %d | %s |" % (start, " ".join(rt))], [(pol, U, "burst%d+%d+%d" % (L1, G, L2))]))
+    nsingle = 0
+    for j, (pol, U, Lb, pre, grp, reps, suf) in enumerate(bursts):
+        if pol in ("F1", "F2") or Lb * U < 600 or (tier == "quick" and Lb * U != 600):
+            continue
+        nsingle += 1
+        if tier == "quick" and nsingle % 2:
+            continue
+        c = QS[(j + rng.randrange(len(QS))) % len(QS)]
+        tl, ntail = tail_tokens(U)
+        start = rng.randrange(0, 1200 // U)
+        npk = start + 5 + Lb + 1 + ntail + 1
+        if npk > 3900:
+            continue
+        L = "L %d %d %d %d %d %d %d %d %d %d %d %d %d %d %d %d %d" % (c[:9] + (U,) + c[9:12] + (rng.randrange(1, 1 << 30),) + c[12:14] + (npk,))
+        streams.append((L, ["W %d | %s |" % (start, " ".join(shift(pre + grp * reps + suf, start) + tl))], [(pol, U, "burst%d" % Lb)]))
     return streams
 
 
@@ -212,7 +265,8 @@ def run_streams(ctx, exe, streams, tag):
 
 OBS = dict(fec_frames=0, fec_err=0, plc_err=0, worst_stream_fec_ratio_x1000=None, max_over_level_cdB=-100000, n_over=0,
            max_after_400ms_cdB=-100000, n_after_400ms=0, max_after_1s_cdB=-100000, max_after_2s_cdB=-100000, max_tail_err_rel_cdB=-100000, n_tail=0, drift=0,
-           strong_fec_streams=0, strong_fec_frames=0, worst_strong_fec_ratio_x1000=None, isolated_loss_worst_packet_rel_cdB=-100000, n_isolated_loss_tails=0, clean_speech_max_re_level_cdB=-100000, clean_speech_max_re_comfort_noise_ref_cdB=-100000, n_clean_speech_after_400ms=0, n_clean_speech_comfort_noise_governed=0)
+           strong_fec_streams=0, strong_fec_frames=0, worst_strong_fec_ratio_x1000=None, isolated_loss_worst_packet_rel_cdB=-100000, n_isolated_loss_tails=0, clean_speech_max_re_level_cdB=-100000, clean_speech_max_re_comfort_noise_ref_cdB=-100000, n_clean_speech_after_400ms=0, n_clean_speech_comfort_noise_governed=0,
+           quiet_start_mdct_max_after_1s_cdB=-100000, n_quiet_start_mdct_after_1s=0, quiet_start_mdct_second_burst_max_after_1s_cdB=-100000, n_quiet_start_mdct_second_burst_after_1s=0)
 
 
 def read_prints(r, trace=None):
@@ -231,7 +285,11 @@ def read_prints(r, trace=None):
         if not p.startswith('"OBS <<'):
             continue
         v = [int(t) for t in p[7:-3].split(", ")]
-        x, nf, sf, sp, o1, n1, o2, n2, o4, n4, o2b, o2c, o5, o5b, n5, nf3, sf3, sp3, o6, n6, n5b = v
+        x, nf, sf, sp, o1, n1, o2, n2, o4, n4, o2b, o2c, o5, o5b, n5, nf3, sf3, sp3, o6, n6, n5b, o7, n7, o7b, n7b = v
+        if n7:
+            OBS["quiet_start_mdct_max_after_1s_cdB"] = max(OBS["quiet_start_mdct_max_after_1s_cdB"], o7); OBS["n_quiet_start_mdct_after_1s"] += n7
+        if n7b:
+            OBS["quiet_start_mdct_second_burst_max_after_1s_cdB"] = max(OBS["quiet_start_mdct_second_burst_max_after_1s_cdB"], o7b); OBS["n_quiet_start_mdct_second_burst_after_1s"] += n7b
         if n6:
             OBS["isolated_loss_worst_packet_rel_cdB"] = max(OBS["isolated_loss_worst_packet_rel_cdB"], o6); OBS["n_isolated_loss_tails"] += n6
         OBS["max_after_1s_cdB"] = max(OBS["max_after_1s_cdB"], o2b); OBS["max_after_2s_cdB"] = max(OBS["max_after_2s_cdB"], o2c)
@@ -426,7 +484,7 @@ def run(ctx):
                 "configuration, policy, duration, fate pattern) receiver runs with at least one lost packet")
     ctx.assumptions = ["TLC 1.8.0 and the CommunityModules Json reader are trusted",
                        "level clauses are asserted only when the recent level (max RMS over the last five good packets) is above the floor LevelFloor (R2)",
-                       "M1, M2, M3, M4 are calibrated thresholds (spec/cfg/LinkTrace.cfg) on RMS / error measurements made by the harness (R3)",
+                       "M1, M2, M3, M4, M5, M6, M7 are calibrated thresholds (spec/cfg/LinkTrace.cfg) on RMS / error measurements made by the harness (R3)",
                        "'carries LBRR for the lost frame' is read as: encoder FEC on, opus_packet_has_lbrr = 1, request covers the frame, neither side MDCT-only (R2); "
                        "the accuracy clause is aggregated per stream over at least MinFecFrames recovered frames",
                        "receiver runs start from a byte copy of the twin decoder's state (copyability is property C12)",
@@ -446,8 +504,9 @@ def run(ctx):
     ctx.notes["exhaustive_scope"] = ("model side and replay side: all 2^%d fate patterns of %d consecutive packets x 7 receiver policies x duration classes; "
                                       "the implementation is exercised on every one of these schedules over sampled stream configurations and window positions" % (kk, kk))
     # 2. schedules from the model, 3. replay
-    sched, bursts = gen_schedules(ctx, tier)
-    streams = build_scripts(ctx, sched, bursts, tier)
+    sched, bursts, bursts2 = gen_schedules(ctx, tier)
+    streams = build_scripts(ctx, sched, bursts, tier, bursts2)
+    ctx.notes["two_burst_runs"] = len([s for s in streams if "+" in s[2][0][2]])
     ctx.notes["schedules"] = len(sched); ctx.notes["bursts"] = len([s for s in streams if s[2][0][2].startswith("burst")]); ctx.notes["streams"] = len(streams)
     var = vf.build_variant("hko")
     exe = vf.build_hx(var, "link.c")
@@ -476,6 +535,8 @@ def run(ctx):
     ctx.notes["observed"] = dict(OBS)
     if os.environ.get("C09_CAL") != "1" and (OBS["strong_fec_streams"] == 0 or OBS["n_clean_speech_after_400ms"] == 0):
         raise vf.Infra("vacuous replay: strong-FEC streams=%d clean speech-layer calls after 400 ms=%d" % (OBS["strong_fec_streams"], OBS["n_clean_speech_after_400ms"]))
+    if os.environ.get("C09_CAL") != "1" and OBS["n_quiet_start_mdct_second_burst_after_1s"] == 0:
+        raise vf.Infra("vacuous replay: no MDCT concealment call judged in a second sustained burst of a quiet-start stream")
     if NEV["fec_lbrr"] == 0 or NEV["plc"] == 0 or OBS["n_after_400ms"] == 0 or OBS["n_tail"] == 0:
         raise vf.Infra("vacuous replay: fec_lbrr=%d plc=%d sustained=%d tails=%d" % (NEV["fec_lbrr"], NEV["plc"], OBS["n_after_400ms"], OBS["n_tail"]))
 
